@@ -30,6 +30,7 @@ Act(h) == /\ who' = h
 PNext == \E h \in Handles :
            /\ \/ \E n \in 1..MaxReq : Alloc(n)
               \/ \E o \in {tbl[i].off : i \in Idx(tbl)} : FreeOff(o)
+              \/ (tbl # <<>> /\ Reset)
            /\ Act(h)
 PSpec == PInit /\ [][PNext]_pvars
 
